@@ -10,6 +10,15 @@ COMMON_NOTE = ("Trusted base: TLC 1.8 evaluating the TLA+ specification in /veri
                "assumption of DESIGN 2.5 for the exhaustive part; simulated / random traces go beyond it.")
 
 CHECKS = {
+ "C06": dict(engine="SparseOrder", design="3/C06",
+   text=("SparseOrder.tla states well-formedness of sparse results (one value per subscript, subscripts in range and "
+         "pairwise distinct, reported nnz = stored entries, no explicit zero after combining / filtering operations) "
+         "and order independence (the results of one call on the same abstract operands under different stored "
+         "orders denote the same value).  TLC generates every sparsity pattern with <= 3 (4) nonzeros with ALL n! "
+         "stored orders (for binary operations also of the second operand) for ~75 public sparse operations and checks "
+         "that re-ordering preserves denotation; each call is executed under every presentation and TLC validates the "
+         "recorded result tuples against SparseOrder_Trace."),
+   technique="TLA+ spec SparseOrder; TLC generation of all stored orders; replay of an operation table; TLC trace validation"),
  "C03": dict(engine="Elementwise", design="3/C03",
    text=("Elementwise.tla defines every element-wise operator position by position on integers with IEEE special "
          "results encoded as uniformly typed rational triples; TLC checks the laws of that value domain, enumerates "
